@@ -96,7 +96,12 @@ class C08(Prop):
                 'DK.BridgeVec.GDevice_deriv',
                 'DK.BridgeVec.CDevice2_cost',
                 'DK.BridgeVec.CDevice2_deriv']      # T1v: vector method bodies (vk/translate_vec.py, DK/Lemmas/BridgeVec.lean)
-  bridge = bridge_vec
+  bridge_sets = ['DK.BridgeSets.DeviceSet_costv', 'DK.BridgeSets.DeviceSet_cost', 'DK.BridgeSets.DeviceSet_deriv',
+                 'DK.BridgeSets.DeviceSet_costv_pvec', 'DK.BridgeSets.DeviceSet_cost_pvec', 'DK.BridgeSets.DeviceSet_deriv_pvec',
+                 'DK.BridgeSets.DeviceSet_costv_pscalar', 'DK.BridgeSets.DeviceSet_cost_pscalar',
+                 'DK.BridgeSets.DeviceSet_deriv_pscalar', 'DK.BridgeSets.DeviceSet_costv_prow', 'DK.BridgeSets.DeviceSet_cost_prow',
+                 'DK.BridgeSets.DeviceSet_deriv_prow', 'DK.BridgeSets.MFDeviceSet_cost', 'DK.BridgeSets.MFDeviceSet_deriv']      # T1s: set-level glue (vk/translate_sets.py, DK/Lemmas/BridgeSets/*.lean)
+  bridge = bridge_vec + bridge_sets
   theorems = ['DK.C08.leaf_cost', 'DK.C08.leaf_deriv', 'DK.C08.hess_indep',
               'DK.C08.device_cost', 'DK.C08.cdevice_cost', 'DK.C08.cdevice2_cost', 'DK.C08.idevice_cost',
               'DK.C08.idevice2_cost', 'DK.C08.gdevice_cost', 'DK.C08.sdevice_cost', 'DK.C08.tdevice_cost',
